@@ -19,6 +19,7 @@ type FaultPlan struct {
 	FailFrom  int     // F5: every send from this one on fails (0 = never)
 	CloseDest int     // F5: destination socket closed by the environment before this send (0 = never)
 	PanicCB   bool    // F8: prometheus error callback panics
+	FailDest  int     `json:",omitempty"` // F5: SendFail/FailFrom apply to this destination only (1-based; 0 = every destination)
 }
 
 var errReporterClose = errors.New("harness: reporter close error")
